@@ -467,6 +467,11 @@ impl DagSpace {
             })
             .collect()
     }
+    /// s of document `idx`, from the generator alone: 1 operation + k fragments + one `a` per body + the spreads.
+    fn size(&self, idx: u64) -> u64 {
+        let bodies = self.decode(idx);
+        1 + self.k as u64 + bodies.iter().map(|b| 1 + b.len() as u64).sum::<u64>()
+    }
     fn doc(&self, idx: u64) -> (String, u64) {
         let bodies = self.decode(idx);
         let spreads = |b: &Vec<usize>| b.iter().map(|t| format!("...F{t} ")).collect::<String>();
@@ -687,7 +692,7 @@ pub fn run(cx: &Cx) {
             .fold(Acc::default, |mut acc, idx| {
                 let (doc, s_gen) = space.doc(idx);
                 match async_graphql_parser::parse_query(&doc) {
-                    Ok(d) if doc_size(&d) == s_gen => {}
+                    Ok(d) if doc_size(&d) == s_gen && space.size(idx) == s_gen => {}
                     other => {
                         acc.errors.push(format!("dag k={k} idx={idx}: generator size {s_gen} vs parsed {:?}", other.map(|d| doc_size(&d)).map_err(|e| e.to_string())));
                         return acc;
@@ -755,10 +760,7 @@ pub fn run(cx: &Cx) {
             pest::set_call_limit(NonZeroUsize::new(pb.max(1) as usize));
             let over: Vec<u64> = (0..space.total)
                 .into_par_iter()
-                .filter(|idx| {
-                    let (doc, s_gen) = space.doc(*idx);
-                    s_gen == *s && async_graphql_parser::parse_query(&doc).is_err()
-                })
+                .filter(|idx| space.size(*idx) == *s && async_graphql_parser::parse_query(&space.doc(*idx).0).is_err())
                 .collect();
             pest::set_call_limit(None);
             parser_over.extend(over.into_iter().map(|i| (i, *s, pb)));
